@@ -1,4 +1,5 @@
 import GtirbVerif.Lemmas.IRFunc
+import GtirbVerif.Lemmas.IRMirror
 import GtirbVerif.Spec.FuncCheck
 
 /-!
@@ -17,7 +18,9 @@ import GtirbVerif.Spec.FuncCheck
 * **theorems** (this file, every IR): the cache mirrors `functionBlocks` — `Mirror` is an
   invariant of the only two writers; a block split off inherits its parent's function; a
   removed block is in no function afterwards; a function that lost its last block (and entry)
-  disappears from all three tables.
+  disappears from all three tables; and the mirror relation (together with "the cache speaks of
+  blocks of the table only") is an invariant of `insert`, of `delete`, of the whole loop over the
+  requests of a block and of `apply()`'s loop over all blocks - for every request list.
 -/
 namespace GtirbVerif.Props.C06
 open GtirbVerif GtirbVerif.IR
@@ -69,6 +72,26 @@ theorem join_respects_function_boundaries (ir : IR) (b1 b2 : Block) (h : ir.code
         · cases h
         · rename_i h3 h4
           exact ⟨by simpa using h3, by simpa using h4⟩
+
+/-- **`functions_by_block` mirrors `functionBlocks` after every `insert`** - through the splits, the
+removal of the replaced range, the patch's code joining the block's function, the clean-up -/
+theorem insert_keeps_cache_in_step {i : Nat} {ir ir' : IR} {b off repl last : Nat} {p : Patch}
+    (h : ir.insert b off repl p = .ok (ir', last)) (hin : In i ir b) (hm : MInv ir) (hI : IdsBelow ir)
+    (hnew : ∀ c ∈ p.text.blocks.map (·.id), ir.block? c = none) (hlt : ∀ c ∈ p.text.blocks.map (·.id), c < ir.next)
+    (hnd : (p.text.blocks.map (·.id)).Nodup) : Mirror ir' :=
+  (insert_minv h hin hm hI hnew hlt hnd).1
+
+/-- ... and after every `delete` -/
+theorem delete_keeps_cache_in_step {ir ir' : IR} {b off len : Nat} {px : Bool} {r : Option Nat}
+    (h : ir.delete b off len px = .ok (ir', r)) (hm : MInv ir) (hI : IdsBelow ir) : Mirror ir' :=
+  (delete_minv h hm hI).1
+
+/-- **... and after `apply()`'s whole loop**, for every list of request lists (premises as in
+`Props.C01.all_blocks_are_listing_edits`) -/
+theorem apply_keeps_cache_in_step (rs : List BlockMods) (ir ir' : IR)
+    (h : ir.applyAll rs = .ok ir') (hI : IdsBelow ir) (hok : ∀ r ∈ rs, ReqOk ir r)
+    (hnd : (rs.map (ivOf ir)).Nodup) (hnew : NewBlocksAll ir rs) (hm : MInv ir) : Mirror ir' :=
+  (applyAll_minv rs ir ir' h hI hok hnd hnew hm).1
 
 /-! ### non-vacuity -/
 private def demo : IR := { fbb := [(1, 7), (2, 7)], aux := { funcBlocks := [(7, [1, 2])], funcEntries := [(7, [1])], funcNames := [(7, 99)] } }
